@@ -64,7 +64,11 @@ def run(ck, prop="C01"):
                     v0 = rc.signed_volume6(pre); v1 = rc.signed_volume6(st)
                     # only when the displacement history itself left a fat, clearly outward-oriented cell
                     # (sphere: V = 0.094 A^1.5): a crumpled, nearly inverted cell cannot be repaired by remeshing
-                    if v0 > 0 and v1 <= 0 and v0 / 6 > 0.02 * rc.total_area(pre) ** 1.5:
+                    # ... and only when the result is itself a fat, clearly inverted cell, or the pass consisted of splits only
+                    # (which keep the volume): a collapse on a mesh of a handful of nodes can flatten the cell to a sliver
+                    # whose volume is rounding-sized and of either sign without the windings being wrong
+                    only_splits = all(op[0] == "split" for op in st["trace"])
+                    if v0 > 0 and v1 <= 0 and v0 / 6 > 0.02 * rc.total_area(pre) ** 1.5 and (only_splits or -v1 / 6 > 0.02 * rc.total_area(st) ** 1.5):
                         fails.append((ci, k, "orientation_lost (signed volume %.3g -> %.3g over one %s)" % (v0 / 6, v1 / 6, st["name"])))
                 elif st["name"] == "REBASE":
                     if sorted(rc.canon(f["tri"]) for f in rc.live_faces(st)).__len__() != len(rc.live_faces(pre)) or st["freeN"] or st["freeF"]:
